@@ -282,7 +282,26 @@ func ModelCFList(l *lorawan.CFList) (*ref.CFList, error) {
 // ToLib builds the library PHYPayload for a model frame. With cmds set, FOpts
 // (and the FRMPayload of port 0) are given as MAC-command values decoded by
 // the model; otherwise as DataPayload bytes.
-func ToLib(f *ref.Frame, cmds bool) (lorawan.PHYPayload, error) {
+func ToLib(f *ref.Frame, cmds bool) (lorawan.PHYPayload, error) { return ToLibOpt(f, cmds, false) }
+
+// ToLibOpt: with emptyNonNil, absent FOpts / FRMPayload are given as empty non-nil slices (what `cmds[:0]` or
+// make([]Payload, 0, n) produce) instead of nil; both are the same frame value.
+func ToLibOpt(f *ref.Frame, cmds, emptyNonNil bool) (lorawan.PHYPayload, error) {
+	p, err := toLib(f, cmds)
+	if err == nil && emptyNonNil {
+		if m, ok := p.MACPayload.(*lorawan.MACPayload); ok {
+			if len(m.FHDR.FOpts) == 0 {
+				m.FHDR.FOpts = []lorawan.Payload{}
+			}
+			if len(m.FRMPayload) == 0 {
+				m.FRMPayload = make([]lorawan.Payload, 0, 2)
+			}
+		}
+	}
+	return p, err
+}
+
+func toLib(f *ref.Frame, cmds bool) (lorawan.PHYPayload, error) {
 	p := lorawan.PHYPayload{MHDR: lorawan.MHDR{MType: lorawan.MType(f.MType), Major: lorawan.Major(f.Major)}, MIC: lorawan.MIC(f.MIC)}
 	up := ref.IsUplinkMType(f.MType)
 	switch {
